@@ -683,6 +683,8 @@ PASS_THROUGH = [
     ("core::option::Option::as_mut", 0), ("core::option::Option::as_ref", 0),
     ("core::option::Option::unwrap", 0), ("core::result::Result::unwrap", 0),
     ("core::result::Result::ok", 0),
+    ("core::option::Option::expect", 0), ("core::result::Result::expect", 0),
+    ("core::option::Option::unwrap_or_default", 0), ("core::option::Option::unwrap_or", 0),
 ]
 
 
